@@ -1,5 +1,6 @@
 (* C23 — proofs about the front-end model. *)
 From TxV Require Import Core.Base Model.FrontDefs Model.Front.
+From TxV Require Proofs.KindsProofs.
 
 Definition is_crash (o : outcome) : bool := match o with Crash _ => true | _ => false end.
 
@@ -210,10 +211,16 @@ Proof.
     exact (follow_crash_is_recursion c o t cl Hg sf_mmm0 sf_contains0 Ho fuel [] n x E).
 Qed.
 
+(* the rule-kind fixpoint ends for every grammar (C03: Proofs/KindsProofs.kinds_correct) *)
+Lemma rule_kinds_fixpoint_ok c t : rule_kinds_fixpoint c t = Ok.
+Proof.
+  unfold rule_kinds_fixpoint. destruct (KindsProofs.kinds_correct (to_kinds c t)) as [s [H _]]. rewrite H. reflexivity.
+Qed.
+
 Lemma determine_rule_types_no_crash c o t fuel : cfg_safe c = true -> determine_rule_types c o fuel t = Ok.
 Proof.
   intro Hs. destruct (cfg_safe_parts c Hs).
-  unfold determine_rule_types. rewrite sf_ruletype0. reflexivity.
+  unfold determine_rule_types. rewrite sf_ruletype0, rule_kinds_fixpoint_ok. reflexivity.
 Qed.
 
 (* ---------------------------------------------------------------- class references *)
@@ -459,6 +466,12 @@ Definition t_undef_cycle : tree := {| t_stmts := [];
   t_rules := [{| r_name := nA; r_params := None; r_body := [[RX (ERef false nC) None false; RX (ERef false nB) None false]] |};
               rule1 nB None (ERef false nB) None] |}.
 Definition g_plain := gram [] [rule1 nA None (EMatch false (SStr [97]%N)) None; rule1 nA None (EMatch false (SStr [98]%N)) None]. (* A: 'a'; A: 'b'; *)
+
+(* A: B | C;  B: x=INT;  C: 'c'; *)
+Definition t_kinds : tree := {| t_stmts := [];
+  t_rules := [{| r_name := nA; r_params := None; r_body := [[RX (ERef false nB) None false]; [RX (ERef false nC) None false]] |};
+              rule1 nB None (EAsg [120]%N OpEq (ARef (RRule [73;78;84]%N)) None) None;
+              rule1 nC None (EMatch false (SStr [99]%N)) None] |}.
 
 (* A: B; B: C; C: 'x';  -- two alias hops *)
 Definition g_self_chain := gram [] [rule1 nA None (ERef false nB) None; rule1 nB None (ERef false nC) None;
